@@ -4,13 +4,14 @@ CONSTANT K = 4
 CONSTANT Funct = FALSE
 CONSTANT AsCoded = FALSE
 CONSTANT Inputs = "dir"
-CONSTANT Lemmas = TRUE
+CONSTANT Lemmas = FALSE
 INVARIANT LibInv
 INVARIANT VisitInv
 INVARIANT ProgressInv
 INVARIANT OrderInv
 INVARIANT PartialInv
 INVARIANT FinalInv
+INVARIANT LookupInv
 INVARIANT SumInv
 INVARIANT CrossInv
 INVARIANT PermInv
